@@ -216,7 +216,15 @@ def h_pairs(eng, pairs):
                 ok = False
             eng.prove(ok == same, f"pair-spelled:{u}->{v}")
             eng.prove(ureg.Quantity(x, u).is_compatible_with(v) == same, f"pair-spelled-compat:{u}->{v}")
-            eng.prove(ureg.Quantity(x, u).check(ureg.get_dimensionality(v)) == same, f"pair-spelled-check:{u}->{v}")
+            try:
+                eng.prove(ureg.Quantity(x, u).check(ureg.get_dimensionality(v)) == same, f"pair-spelled-check:{u}->{v}")
+            except AssertionError:
+                # known finding K16: get_dimensionality / get_base_units / get_compatible_units /
+                # Quantity.check read a string without the registry's preprocessors, so the
+                # symbol '%' reaches the expression parser as an operator
+                if "%" not in v:
+                    raise
+                eng.fail("pair-spelled-check:percent-sign-raises-AssertionError", stop=False)
             continue
         u, v = item
         same = inf[u].dims == inf[v].dims
